@@ -66,9 +66,11 @@ RELATION = (
     "drop); N is not touched. After every step: equal active tips; the previously final block is still in the "
     "ancestry of F's tip; the final block only moves forward. Every 5 steps: for every ALT block F retains that is on "
     "its active chain or descends from the final block, and every VBK/BTC block F retains: equal height, status word, "
-    "payload ids, containing endorsements, endorsedBy, VBK refcount, BTC refs, number of block-of-proof back pointers "
-    "(pointers themselves are not dereferenced in F: they dangle once the containing ALT block is deallocated), equal "
-    "VBK/BTC best tips. Not compared: tips_ sets, blocks F has deallocated, outdated blocks, the finalized mark.")
+    "payload ids, containing endorsements, endorsedBy, VBK refcount, BTC refs, equal VBK/BTC best tips. Not compared: "
+    "tips_ sets, blocks F has deallocated, outdated blocks, the finalized mark, and the memory-only block-of-proof "
+    "back pointers (a finalizing instance holds fewer: those into deallocated containing blocks are dropped by the "
+    "repair of known finding dangling-endorsement-backpointers, and before that repair they dangle - the separate "
+    "pointer-comparison oracle `dangling` reports them under that key).")
 
 
 def build_script(histories, mode, save_every, corr_every=0):
